@@ -282,6 +282,7 @@ class CheckC16(core.Check):
             nconc += 1
         r.stats["concurrent_ops_judged"] += nconc
         r.stats["concurrent_blocks"] += 1
+        r.stats["first_use_concurrent_blocks"] += sum(1 for x in ce2s if x is not None)
         order.sort()
         sig = hashlib.sha256(",".join(t for _, t in order).encode()).hexdigest()[:16]
         switches = sum(1 for i in range(1, len(order)) if order[i][1] != order[i - 1][1])
